@@ -6,8 +6,10 @@ import (
 	"hash/fnv"
 	"os"
 	"path/filepath"
+	"runtime"
 	"strconv"
 	"strings"
+	"sync/atomic"
 	"testing"
 	"time"
 
@@ -19,7 +21,34 @@ import (
 // late in a worker would not replay as the first case of a fresh process.
 func TestMain(m *testing.M) {
 	warmup()
+	go watchdog()
 	os.Exit(m.Run())
+}
+
+// runStarted is the wall-clock start (unix nanos) of the run in progress, 0 when idle.
+var runStarted atomic.Int64
+
+// watchdog (a real goroutine outside every bubble) ends the process when a single simulated run makes no progress
+// for two wall-clock minutes - a task blocked on a real lock that the scheduler cannot see - and prints the stacks.
+// The orchestrator reports that as a harness error (exit 2), never as a violation.
+func watchdog() {
+	limit := time.Duration(envInt("VERIF_RUN_WALL_S", 120)) * time.Second
+	for {
+		time.Sleep(2 * time.Second)
+		st := runStarted.Load()
+		if st != 0 && time.Since(time.Unix(0, st)) > limit {
+			buf := make([]byte, 1<<20)
+			n := runtime.Stack(buf, true)
+			fmt.Fprintf(os.Stderr, "HARNESS-WATCHDOG: a simulated run exceeded %v of wall-clock time; goroutines:\n%s\n", limit, buf[:n])
+			os.Exit(3)
+		}
+	}
+}
+
+func timedRun(t *testing.T, p Property, c Case, trace bool) *Outcome {
+	runStarted.Store(time.Now().UnixNano())
+	defer runStarted.Store(0)
+	return p.Run(t, c, trace)
 }
 
 func warmup() {
@@ -122,7 +151,7 @@ func TestWorker(t *testing.T) {
 	for i := int(envInt("VERIF_FIRST", 0)); i < maxRuns && time.Since(start) < budget; i++ {
 		seed := simrt.Mix(base, propHash(id), uint64(shard), uint64(i))
 		c := p.Gen(seed, tier)
-		out := p.Run(t, c, false)
+		out := timedRun(t, p, c, false)
 		sum.Runs++
 		sum.Steps += out.Stats.Steps
 		sum.Switches += out.Stats.Switches
